@@ -185,6 +185,8 @@ func (instr *InstrActions) Len() (n uint16) {
 }
 
 func (instr *InstrActions) MarshalBinary() (data []byte, err error) {
+	// sized now: an action may have grown since AddAction counted it
+	instr.Length = instr.Len()
 	data, err = instr.InstrHeader.MarshalBinary()
 
 	b := make([]byte, 4)
